@@ -152,6 +152,9 @@ class SeqList:
                 a = SeqList.of([_ident(x) for x in interp.iterate(a)])
             self.seq = z3.Concat(self.seq, a.seq)
             return None
+        if name == "insert" and isinstance(args[0], int) and args[0] == 0:
+            self.seq = z3.Concat(z3.Unit(_z(_ident(args[1]))), self.seq)
+            return None
         raise EngineError("SeqList.%s" % name)
 
 
